@@ -11,6 +11,9 @@ import RsMatterVerif.Lemmas.CodecDerRead -- D16d
 import RsMatterVerif.Lemmas.CodecCmsCd -- D16d
 import RsMatterVerif.Lemmas.CodecCmsRound -- D16d
 import RsMatterVerif.Lemmas.CodecCertAsn1
+import RsMatterVerif.Lemmas.CodecBleRecovery
+import RsMatterVerif.Lemmas.CodecMdnsRound
+import RsMatterVerif.Lemmas.CodecMdnsService
 /-!
 # C17 — headers, onboarding payloads and discovery records decode what was encoded
 
@@ -586,5 +589,265 @@ example : certSample.Legal := by
     rcases he with rfl | rfl | rfl | rfl | rfl <;> simp [XExt.WF]
 
 end DerCert
+
+end C17
+
+/-! ## (D16b-1) BLE advertisement payload of a node in network-recovery mode (`RecoveryAdvData`) -/
+namespace C17
+open Codec
+
+/-- `parse_service_data (service_payload_iter r) = r` and `parse_adv (iter r) = r` for every eight-byte id -/
+theorem ble_recovery_parse_encode (r : BleRecovery.Rec) (hwf : BleRecovery.WF r) :
+    BleRecovery.parseServiceData (BleRecovery.servicePayload r) = .ok (some r) ∧
+    BleRecovery.parseAdv (BleRecovery.encode r) = .ok (some r) :=
+  BleRecovery.parse_encode r hwf
+example : BleRecovery.WF { id := [0x11, 0x22, 0x33, 0x44, 0x55, 0x66, 0x77, 0x88], additional := false } := rfl
+
+/-- both parsers are total on arbitrary bytes: the guarded indexes / `try_into().unwrap()` never fire -/
+theorem ble_recovery_parse_total (adv : List Nat) :
+    NoPanic (BleRecovery.parseAdv adv) ∧ NoPanic (BleRecovery.parseServiceData adv) :=
+  ⟨BleRecovery.parseAdv_np adv, BleRecovery.parseServiceData_np adv⟩
+
+/-- refusal: a payload shorter than 11 bytes, a payload whose opcode is not 1, an advertisement
+without a Matter service-data structure -/
+theorem ble_recovery_rejected :
+    (∀ p : List Nat, p.length < BleRecovery.PAYLOAD_LEN → BleRecovery.parseServiceData p = .ok none) ∧
+    (∀ (op : Nat) (rest : List Nat), op ≠ BleRecovery.OPCODE_NETWORK_RECOVERY →
+      BleRecovery.parseServiceData (op :: rest) = .ok none) ∧
+    (∀ adv : List Nat, BleAdv.matterServiceData (adv.length + 1) adv = none → BleRecovery.parseAdv adv = .ok none) :=
+  ⟨BleRecovery.parse_rejects_short, BleRecovery.parse_rejects_opcode, BleRecovery.parseAdv_rejects_no_matter⟩
+example : ([1, 0, 1, 2, 3] : List Nat).length < BleRecovery.PAYLOAD_LEN ∧ (0 : Nat) ≠ BleRecovery.OPCODE_NETWORK_RECOVERY ∧
+    BleAdv.matterServiceData 4 [0x02, 0x01, 0x05] = none := by decide
+
+/-- soundness of an accepted payload: wire layout `01 vv id[8] ad …`, id verbatim, flag = bit 0 -/
+theorem ble_recovery_accepts_only_layout (p : List Nat) (r : BleRecovery.Rec)
+    (h : BleRecovery.parseServiceData p = .ok (some r)) :
+    BleRecovery.WF r ∧ ∃ v ad rest, p = BleRecovery.OPCODE_NETWORK_RECOVERY :: v :: (r.id ++ ad :: rest) ∧
+      r.additional = decide (ad % 2 = 1) :=
+  BleRecovery.parse_some p r h
+example : BleRecovery.parseServiceData [1, 0, 1, 2, 3, 4, 5, 6, 7, 8, 1] =
+    .ok (some { id := [1, 2, 3, 4, 5, 6, 7, 8], additional := true }) := by
+  rw [BleRecovery.parseServiceData_long]; rfl
+
+/-- the commissionable and the recovery payload never parse as each other (opcode byte / length) -/
+theorem ble_adv_kinds_disjoint (r : BleRecovery.Rec) (a : BleAdv.Adv) :
+    BleAdv.parseServiceData (BleRecovery.servicePayload r) = .ok none ∧
+    BleRecovery.parseServiceData (BleAdv.servicePayload a) = .ok none :=
+  BleRecovery.kinds_disjoint r a
+
+end C17
+
+/-! ## (D16b-2) mDNS: names, resource records, TXT strings, the broadcast message and `parse_into_answer`
+
+Model: `Model/Codec/Mdns.lean` (what is rs-matter code and what is `domain`-crate behaviour is said there).
+`P` is the parser cursor (`pos`, `len`); `P.Inv d p` is `pos ≤ len ≤ |d|`. -/
+namespace C17
+open Codec Codec.Mdns
+
+/-! ### totality -/
+
+/-- **termination of compression-pointer following**: for every octet string and every cursor the name
+parser never exhausts the step budget `256 * (len + 2)` the model hands out (a pointer must point strictly
+before itself, and between two pointers the name grows towards its 255-octet limit) -/
+theorem mdns_name_parse_terminates (d : List Nat) (p : P) : parseName d p ≠ .error .fuel :=
+  parseName_ne_fuel d p
+
+/-- the name parser on a sound cursor answers a name or a proper error - never a panic - and leaves a sound cursor -/
+theorem mdns_name_parse_no_panic (d : List Nat) (p : P) (hi : p.Inv d) :
+    Fine (parseName d p) ∧ ∀ n p', parseName d p = .ok (n, p') → p'.Inv d ∧ p'.len = p.len := by
+  have h := parseName_good d p hi
+  refine ⟨h.fine, fun n p' he => ?_⟩
+  rw [he] at h; exact h
+example : P.Inv [3, 119, 119, 119, 0] ⟨0, 5⟩ := by refine ⟨by decide, by decide⟩
+
+/-- **`parse_into_answer` is total on arbitrary octets**: shorter than a header → `MdnsError`, otherwise
+`None` or an answer; no panic, no exhausted budget (name parser, `MdnsTxt`, `MdnsAddrs`) -/
+theorem mdns_parse_total (d : List Nat) (scope : Option Nat) :
+    (d.length < 12 ∧ parseIntoAnswer d scope = .error .shortMessage) ∨
+    (12 ≤ d.length ∧ ∃ v, parseIntoAnswer d scope = .ok v) :=
+  parseIntoAnswer_total d scope
+
+/-- draining `MdnsTxt` over arbitrary record data always yields a list -/
+theorem mdns_txt_total (data : List Nat) : ∃ kvs, txtPairs data = .ok kvs := txtPairs_fine data
+
+/-- `MdnsAddrs` (a re-walk per item with a `seen` / `yielded` cursor) drained = the addresses of the A / AAAA
+records owned by the SRV target, in packet order -/
+theorem mdns_addrs_iterator (d : List Nat) (L : Nat) (rs : List Rec) (t : Name) (hok : ∀ r ∈ rs, RecOk d L r) :
+    addrsAll d rs (some t) (rs.length + 1) 0 = .ok (addrsOf t (addrView d) rs) :=
+  addrsAll_view d L rs t hok
+example : ∀ r ∈ ([] : List Rec), RecOk [] 0 r := by intro r hr; cases hr
+
+/-! ### names -/
+
+/-- **name round trip**, compression-free encoding: labels of 1..63 octets, at most 255 octets on the wire -/
+theorem mdns_name_round_trip (d : List Nat) (p : P) (labels : List (List Nat)) (B : List Nat) (hwf : NameWF labels)
+    (hdrop : d.drop p.pos = encName labels ++ B) (hfit : p.pos + (encName labels).length ≤ p.len) (hd : p.len ≤ d.length) :
+    parseName d p = .ok ({ labels := labels, nameLen := (encName labels).length, compressed := false },
+                         ⟨p.pos + (encName labels).length, p.len⟩) :=
+  parseName_flat d p labels B hwf hdrop hfit hd
+example : NameWF [[95, 109, 97, 116, 116, 101, 114, 99], [95, 117, 100, 112], LOCAL] := by decide
+
+/-- **name round trip with suffix compression** (what other responders send): labels, then a pointer to an
+earlier flat name -/
+theorem mdns_name_compressed_round_trip (d : List Nat) (p : P) (pre suf : List (List Nat)) (c lo : Nat) (B B' : List Nat)
+    (hpre : ∀ l ∈ pre, 1 ≤ l.length ∧ l.length ≤ 63) (hsuf : ∀ l ∈ suf, 1 ≤ l.length ∧ l.length ≤ 63) (hc : 192 ≤ c)
+    (hdrop : d.drop p.pos = encLabels pre ++ c :: lo :: B)
+    (hfit : p.pos + (encLabels pre).length + 2 ≤ p.len) (hd : p.len ≤ d.length)
+    (hback : lo + c % 64 * 256 < p.pos + (encLabels pre).length)
+    (hsufdrop : d.drop (lo + c % 64 * 256) = encName suf ++ B')
+    (hsuffit : lo + c % 64 * 256 + (encName suf).length ≤ p.len)
+    (hlen : (encLabels pre).length + (encName suf).length ≤ 255) :
+    parseName d p = .ok ({ labels := pre ++ suf, nameLen := (encLabels pre).length + (encName suf).length,
+                           compressed := decide ((encLabels pre).length ≠ 0) },
+                         ⟨p.pos + (encLabels pre).length + 2, p.len⟩) :=
+  parseName_compressed d p pre suf c lo B B' hpre hsuf hc hdrop hfit hd hback hsufdrop hsuffit hlen
+/-- the hypotheses are satisfiable: `local.` at 0, `_udp` + pointer to 0 at 7 -/
+example : parseName [5, 108, 111, 99, 97, 108, 0, 4, 95, 117, 100, 112, 0xC0, 0] ⟨7, 14⟩ =
+    .ok ({ labels := [[95, 117, 100, 112], [108, 111, 99, 97, 108]], nameLen := 12, compressed := true }, ⟨14, 14⟩) := by
+  rfl
+
+/-- **refusal clauses of the name parser**, each after an arbitrary run `pre` of well-formed labels:
+a length octet 0x40..0xBF (label longer than 63 octets); a name cut off at a label boundary or inside a
+label; a pointer that does not point strictly before itself (self reference, forward, past the end - the
+only way a pointer loop could start); a name longer than 255 octets -/
+theorem mdns_name_rejected (d : List Nat) (p : P) (pre : List (List Nat))
+    (hpre : ∀ l ∈ pre, 1 ≤ l.length ∧ l.length ≤ 63) (hd : p.len ≤ d.length) (hlen : (encLabels pre).length < 255) :
+    (∀ t B, 64 ≤ t → t < 192 → d.drop p.pos = encLabels pre ++ t :: B → p.pos + (encLabels pre).length + 1 ≤ p.len →
+      parseName d p = .error .badLabel) ∧
+    (∀ B, d.drop p.pos = encLabels pre ++ B → p.pos + (encLabels pre).length = p.len →
+      parseName d p = .error .shortInput) ∧
+    (∀ n B, 1 ≤ n → n ≤ 63 → d.drop p.pos = encLabels pre ++ n :: B → p.pos + (encLabels pre).length + 1 ≤ p.len →
+      p.len < p.pos + (encLabels pre).length + 1 + n → parseName d p = .error .shortInput) ∧
+    (∀ c lo B, 192 ≤ c → d.drop p.pos = encLabels pre ++ c :: lo :: B → p.pos + (encLabels pre).length + 2 ≤ p.len →
+      p.pos + (encLabels pre).length ≤ lo + c % 64 * 256 → parseName d p = .error .compression) ∧
+    (∀ l B, 1 ≤ l.length → l.length ≤ 63 → d.drop p.pos = encLabels pre ++ l.length :: (l ++ B) →
+      p.pos + (encLabels pre).length + 1 + l.length ≤ p.len → 255 ≤ (encLabels pre).length + l.length + 1 →
+      parseName d p = .error .longName) :=
+  ⟨fun t B h1 h2 hdrop hfit => parseName_rejects_bad_label d p pre t B hpre h1 h2 hdrop hfit hd hlen,
+   fun B hdrop hfit => parseName_rejects_truncated d p pre B hpre hdrop hfit hd hlen,
+   fun n B h1 h2 hdrop hfit hcut => parseName_rejects_truncated_label d p pre n B hpre h1 h2 hdrop hfit hcut hd hlen,
+   fun c lo B hc hdrop hfit hfwd => parseName_rejects_forward_pointer d p pre c lo B hpre hc hdrop hfit hd hlen hfwd,
+   fun l B h1 h2 hdrop hfit hlong => parseName_rejects_long d p pre l B hpre h1 h2 hdrop hfit hd hlen hlong⟩
+/-- samples of the refused inputs: a self-referencing pointer; two pointers pointing at each other; a pointer
+whose target runs into the same pointer again (refused when the name reaches 255 octets) -/
+example : parseName [0xC0, 0] ⟨0, 2⟩ = .error .compression ∧
+    parseName [0xC0, 2, 0xC0, 0] ⟨0, 4⟩ = .error .compression ∧ parseName [0xC0, 2, 0xC0, 0] ⟨2, 4⟩ = .error .compression ∧
+    parseName (62 :: List.replicate 62 97 ++ [0xC0, 0]) ⟨63, 65⟩ = .error .longName := ⟨rfl, rfl, rfl, rfl⟩
+
+/-- **everything the name parser accepts is a legal DNS name** - labels of 1..63 octets, reported length = length
+of the uncompressed name ≤ 255 octets - however many compression pointers were followed (no hypothesis) -/
+theorem mdns_name_accepts_only_legal (d : List Nat) (p : P) (n : Name) (p' : P) (h : parseName d p = .ok (n, p')) :
+    (∀ l ∈ n.labels, 1 ≤ l.length ∧ l.length ≤ 63) ∧ n.nameLen = (encName n.labels).length ∧ n.nameLen ≤ 255 :=
+  parseName_sound d p n p' h
+
+/-! ### resource records -/
+
+/-- **record framing round trip**: owner name, TYPE, CLASS, TTL, RDLENGTH, RDATA of any record type -/
+theorem mdns_record_round_trip (d : List Nat) (pos len : Nat) (r : RecSpec) (B : List Nat) (hwf : r.WF)
+    (h : d.drop pos = r.bytes ++ B) (hfit : pos + r.bytes.length ≤ len) (hd : len ≤ d.length) :
+    parseRecord d ⟨pos, len⟩ = .ok (r.parsed pos len, ⟨pos + r.bytes.length, len⟩) ∧
+    d.drop (pos + r.hdrLen) = r.rdata ++ B ∧ d.drop (pos + r.bytes.length) = B :=
+  parseRecord_at d pos len r B hwf h hfit hd
+example : RecSpec.WF { owner := [LOCAL], rtype := RT_A, cls := CLASS_IN_FLUSH, ttl := 120, rdata := [192, 168, 1, 5] } :=
+  ⟨by decide, by decide, by decide, by decide, by decide⟩
+
+/-- **typed record data round trip** of a record found at `pos` (`At`): SRV (priority, weight, port, target),
+PTR (target), A / AAAA (4 / 16 octets), and the raw data the TXT pass keeps -/
+theorem mdns_rdata_round_trip {d : List Nat} {len : Nat} {r : RecSpec} {pos : Nat} (h : At d len r pos) :
+    (∀ prio weight port target, r.rtype = RT_SRV →
+      r.rdata = u16be prio ++ (u16be weight ++ (u16be port ++ encName target)) →
+      prio < 65536 → weight < 65536 → port < 65536 → NameWF target →
+      toSrv d (r.parsed pos len) = .ok (some (port, flatName target))) ∧
+    (∀ target, r.rtype = RT_PTR → r.rdata = encName target → NameWF target →
+      toPtr d (r.parsed pos len) = .ok (some (flatName target))) ∧
+    (r.rtype = RT_A → r.rdata.length = 4 → toAddr RT_A 4 d (r.parsed pos len) = .ok (some r.rdata)) ∧
+    (r.rtype = RT_AAAA → r.rdata.length = 16 → toAddr RT_AAAA 16 d (r.parsed pos len) = .ok (some r.rdata)) ∧
+    toUnknown d (r.parsed pos len) = .ok (some r.rdata) :=
+  ⟨fun prio weight port target ht hdata h1 h2 h3 hwf => toSrv_at h prio weight port target ht hdata h1 h2 h3 hwf,
+   fun target ht hdata hwf => toPtr_at h target ht hdata hwf,
+   fun ht hn => toAddr_at RT_A 4 h ht hn, fun ht hn => toAddr_at RT_AAAA 16 h ht hn, toUnknown_at h⟩
+
+/-! ### TXT -/
+
+/-- **TXT round trip**: `Txt::compose_rdata` → `MdnsTxt`: the same pairs in the same order (split at the
+first `=`; an empty list travels as one empty string) -/
+theorem mdns_txt_round_trip (kvs : List (List Nat × List Nat)) (hwf : ∀ kv ∈ kvs, TxtWF kv) :
+    txtPairs (encTxt kvs) = .ok kvs :=
+  txtPairs_encTxt kvs hwf
+example : ∀ kv ∈ [([68], [49, 50, 51, 52]), ([86, 80], [54, 53, 43, 51, 61])], TxtWF kv := by
+  intro kv hkv
+  simp only [List.mem_cons, List.not_mem_nil, or_false] at hkv
+  rcases hkv with rfl | rfl <;> exact ⟨by decide, by decide, by decide⟩
+
+/-! ### the whole message -/
+
+def mdnsSampleHost : HostCfg :=
+  { hostname := [109, 121, 104, 111, 115, 116], ip := [192, 168, 1, 5], ipv6 := [List.replicate 16 0, [0xfe, 0x80, 0, 0, 0, 0, 0, 0, 0, 0, 0, 0, 0, 0, 0, 1]] }
+def mdnsSampleSvc : Svc :=
+  { name := [65, 66, 67, 68], service := [95, 109, 97, 116, 116, 101, 114, 99], protocol := [95, 117, 100, 112], port := 5540,
+    subtypes := [[95, 76, 49, 50, 51, 52], [95, 67, 77]], txt := [([68], [49, 50, 51, 52]), ([86, 80], [54, 53, 43, 51])] }
+
+/-- **message round trip**: header + A / AAAA / SRV / PTR… / TXT answers written by `Host::broadcast` for a
+legal description are parsed by `parse_into_answer` into exactly the instance name, the port, the TXT pairs
+in order and the addresses (IPv4 unless unspecified, then the specified IPv6 ones) that were encoded;
+and the encoder answers these octets whenever they fit the buffer, `BufferTooSmall` otherwise -/
+theorem mdns_message_round_trip (h : HostCfg) (s : Svc) (hostTtl svcTtl cap : Nat) (scope : Option Nat)
+    (hwf : BroadcastWF h s hostTtl svcTtl) :
+    parseIntoAnswer (broadcastBytes h s hostTtl svcTtl) scope = .ok (some {
+      inst := flatName (serviceFqdn s), port := some s.port, addrs := hostAddrs h, txt := s.txt, scope := scope.getD 0 }) ∧
+    ((broadcastBytes h s hostTtl svcTtl).length ≤ cap → broadcast h s hostTtl svcTtl cap = .ok (broadcastBytes h s hostTtl svcTtl)) ∧
+    (¬ (broadcastBytes h s hostTtl svcTtl).length ≤ cap → broadcast h s hostTtl svcTtl cap = .error .bufferTooSmall) := by
+  have hb := broadcast_spec h s hostTtl svcTtl cap hwf
+  refine ⟨parse_broadcast h s hostTtl svcTtl scope hwf, fun hc => ?_, fun hc => ?_⟩
+  · rw [if_pos hc] at hb; exact hb
+  · rw [if_neg hc] at hb; exact hb
+example : BroadcastWF mdnsSampleHost mdnsSampleSvc 120 4500 :=
+  ⟨by decide, by decide, by decide, by decide, by decide, by decide, by decide, by decide, by decide, by decide, by decide⟩
+
+/-- **browse response**: a message with only a PTR record `service type → instance` (no SRV) yields the PTR target
+as instance name, no port, no address, no TXT pair - the fallback branch of `parse_into_answer` -/
+theorem mdns_browse_response (stype inst : List (List Nat)) (ttl : Nat) (scope : Option Nat)
+    (h1 : NameWF stype) (h2 : NameWF inst) (h3 : ttl < 4294967296) :
+    parseIntoAnswer (responseBytes [browseRecord stype inst ttl]) scope =
+      .ok (some { inst := flatName inst, port := none, addrs := [], txt := [], scope := scope.getD 0 }) :=
+  parse_browse_response stype inst ttl scope h1 h2 h3
+example : NameWF (serviceTypeFqdn mdnsSampleSvc) ∧ NameWF (serviceFqdn mdnsSampleSvc) := by decide
+
+/-- a query written by `build_query` is not an answer, and its question section is walked to the end -/
+theorem mdns_query_ignored (name : List (List Nat)) (rtype : Nat) (scope : Option Nat) :
+    parseIntoAnswer (queryBytes name rtype) scope = .ok none ∧
+    (NameWF name → rtype < 65536 →
+      answerStart (queryBytes name rtype) = .ok ⟨(queryBytes name rtype).length, (queryBytes name rtype).length⟩) :=
+  ⟨parse_query name rtype scope, answerStart_query name rtype⟩
+
+/-! ### what a Matter node publishes (`MatterLocalService::service`, `transport/network/mdns.rs`) -/
+
+/-- the instance name, the service type and every subtype are legal DNS names, and every TXT pair fits a TXT
+string, has a key without `=` and is UTF-8 - for every value of the identifiers, discriminator, vendor / product
+id, session parameters, pairing hint, device type, TCP / ICD flags (device name and pairing instruction: UTF-8,
+≤ 249 octets) -/
+theorem mdns_matter_service_legal (l : LocalSvc) (dd : DevDet) (port : Nat) (icd : Option Bool) (hdd : dd.WF) :
+    NameWF (serviceFqdn (matterService l dd port icd).1) ∧
+    (∀ sub ∈ (matterService l dd port icd).1.subtypes, NameWF (subtypeFqdn (matterService l dd port icd).1 sub)) ∧
+    (∀ kv ∈ (matterService l dd port icd).1.txt, TxtOk kv) :=
+  ⟨(matterService_names l dd port icd).1, (matterService_names l dd port icd).2, matterService_txt l dd port icd hdd⟩
+def mdnsSampleDevDet : DevDet :=
+  { vid := 0xFFF1, pid := 0x8000, sai := some 300, sii := none, deviceName := [84, 101, 115, 116],
+    pairingInstruction := [], pairingHint := 33, deviceType := some 257, tcp := true }
+example : DevDet.WF mdnsSampleDevDet :=
+  ⟨by decide, by decide, by decide, by decide⟩
+
+/-- **end to end**: what a Matter node publishes, written by `Host::broadcast` and read by `parse_into_answer`,
+comes back with the published instance name, port, TXT pairs (`D`, `CM`, `VP`, …) in order and the host's addresses -/
+theorem mdns_matter_service_round_trip (h : HostCfg) (l : LocalSvc) (dd : DevDet) (port : Nat) (icd : Option Bool)
+    (hostTtl svcTtl : Nat) (scope : Option Nat) (hdd : dd.WF) (hhost : NameWF (hostFqdn h)) (hip : h.ip.length = 4)
+    (hip6 : ∀ a ∈ h.ipv6, a.length = 16) (hn6 : h.ipv6.length ≤ 1000) (hport : port < 65536)
+    (ht1 : hostTtl < 4294967296) (ht2 : svcTtl < 4294967296) :
+    parseIntoAnswer (broadcastBytes h (matterService l dd port icd).1 hostTtl svcTtl) scope = .ok (some {
+      inst := flatName (serviceFqdn (matterService l dd port icd).1), port := some port, addrs := hostAddrs h,
+      txt := (matterService l dd port icd).1.txt, scope := scope.getD 0 }) :=
+  matterService_round_trip h l dd port icd hostTtl svcTtl scope hdd hhost hip hip6 hn6 hport ht1 ht2
+example : NameWF (hostFqdn mdnsSampleHost) ∧ mdnsSampleHost.ip.length = 4 ∧ (∀ a ∈ mdnsSampleHost.ipv6, a.length = 16) ∧
+    mdnsSampleHost.ipv6.length ≤ 1000 := by decide
 
 end C17
